@@ -232,6 +232,8 @@ pub struct DeclRef {
     pub variant: bool,
 }
 pub const PRELUDE_FILE: usize = usize::MAX;
+/// `TyProbe::ty` of a position where hover must report nothing
+pub const NO_TYPE: &str = "<none>";
 
 #[derive(Clone, Debug)]
 pub struct Occ {
@@ -308,6 +310,9 @@ pub struct Gen<'a> {
     budget: i32,
     /// the expression being written stands where the checker knows the expected type (`.Variant` is inferable)
     dot_ok: bool,
+    /// the expression being written is directly a call argument or the initializer of an annotated `let`
+    /// (the checker does not infer the result type of an alias-qualified call `lb.f()` on its own)
+    typed_ctx: bool,
     feats: Vec<&'static str>,
 }
 
@@ -318,7 +323,7 @@ impl<'a> Gen<'a> {
     pub fn new(rng: &'a mut Rng, opts: &'a Opts) -> Self {
         Gen {
             rng, opts, structs: vec![], enums: vec![], vis_structs: vec![], vis_enums: vec![], scopes: vec![],
-            cur: FileOut::default(), cur_idx: 0, ind: 0, budget: 0, dot_ok: false, feats: vec![],
+            cur: FileOut::default(), cur_idx: 0, ind: 0, budget: 0, dot_ok: false, typed_ctx: false, feats: vec![],
         }
     }
 
@@ -674,7 +679,9 @@ impl<'a> Gen<'a> {
         self.budget -= 1;
         let vis = self.visible();
         let same: Vec<&Var> = vis.iter().filter(|v| &v.ty == t).collect();
-        let callable: Vec<&Var> = vis.iter().filter(|v| matches!(&v.ty, Ty::Fn(_, r) if **r == *t)).collect();
+        let typed_ctx = self.typed_ctx;
+        self.typed_ctx = false;
+        let callable: Vec<&Var> = vis.iter().filter(|v| matches!(&v.ty, Ty::Fn(_, r) if **r == *t) && (v.alias.is_none() || typed_ctx)).collect();
         let structs: Vec<(&Var, usize)> = vis
             .iter()
             .filter(|v| v.alias.is_none())
@@ -748,12 +755,20 @@ impl<'a> Gen<'a> {
             self.literal(t, depth);
             self.dot_ok = false;
         } else {
-            self.expr(t, depth);
+            self.dot_ok = false;
+            self.typed_ctx = true;
+            self.expr_inner(t, depth);
+            self.typed_ctx = false;
         }
     }
 
     pub fn expr(&mut self, t: &Ty, depth: u32) {
         self.dot_ok = false;
+        self.typed_ctx = false;
+        self.expr_inner(t, depth);
+    }
+
+    fn expr_inner(&mut self, t: &Ty, depth: u32) {
         let deep = depth >= 4 || self.budget <= 0;
         if deep || matches!(t, Ty::Void | Ty::Fn(..)) {
             return self.atom(t, depth);
@@ -775,6 +790,7 @@ impl<'a> Gen<'a> {
                     _ => return self.atom(t, depth),
                 };
                 self.feat("binop");
+                self.typed_ctx = false;
                 let op = *self.rng.pick(ops);
                 self.atom(&ot, depth + 1);
                 let g0 = self.pos();
@@ -1185,12 +1201,17 @@ impl<'a> Gen<'a> {
             }
             for (k, s) in sigs.iter().enumerate() {
                 self.feat("fn-def");
+                let kw = self.pos();
                 self.w("fn ");
+                // nothing typed is under the cursor on the keyword and the parentheses of the header
+                self.cur.probes.push(TyProbe { lo: kw, hi: kw + 3, ty: NO_TYPE.to_string(), what: "fn-header" });
                 let fty = file_scope[base_len + k].ty.clone();
                 let (l, h) = self.ident(&s.name, None, "fn-decl");
                 self.probe(l, h, &fty, "fn-name");
                 positions[k] = (l, h);
+                let op = self.pos();
                 self.w("(");
+                self.cur.probes.push(TyProbe { lo: op, hi: op + 1, ty: NO_TYPE.to_string(), what: "fn-header" });
                 self.scopes = vec![file_scope.clone(), vec![]];
                 for (i, (pn, pt)) in s.ps.iter().enumerate() {
                     if i > 0 {
@@ -1203,7 +1224,9 @@ impl<'a> Gen<'a> {
                     let d = self.here(pl, ph);
                     self.bind(pn, pt.clone(), d, false);
                 }
+                let cp = self.pos();
                 self.w(") -> ");
+                self.cur.probes.push(TyProbe { lo: cp, hi: cp + 5, ty: NO_TYPE.to_string(), what: "fn-header" });
                 self.annot(&s.ret);
                 self.w(" {");
                 self.ind = 1;
